@@ -22,12 +22,12 @@ func init() {
 }
 
 type FutEvent struct {
-	Seq int64  `json:"seq"`
-	Ev  string `json:"ev"`  // begin | start | delivered | inv | res | end
-	Tid int    `json:"tid"`
-	Op  string `json:"op"`  // deref | done? | cancelled? | cancel
-	Val int    `json:"val"` // boolean answers 0/1; end: number of body executions
-	Out string `json:"out"` // deref outcome: "val:<printed>" | "err:<class>" | "ctx"
+	Seq  int64  `json:"seq"`
+	Ev   string `json:"ev"` // begin | start | delivered | inv | res | end
+	Tid  int    `json:"tid"`
+	Op   string `json:"op"`  // deref | done? | cancelled? | cancel
+	Val  int    `json:"val"` // boolean answers 0/1; end: number of body executions
+	Out  string `json:"out"` // deref outcome: "val:<printed>" | "err:<class>" | "ctx"
 	Body string `json:"body"`
 }
 
